@@ -49,9 +49,14 @@ class AwesomeyamlLoader(yaml.Loader):
         return ret
 
     @staticmethod
-    def _make_generator(value, update_fn):
+    def _make_generator(value, aynode):
         yield
-        update_fn(value)
+        # bring the wrapper up to date with whatever PyYAML has put into the raw
+        # container since it was wrapped (nothing, if it was already complete)
+        if isinstance(value, list):
+            aynode.extend(value[len(aynode):])
+        else:
+            aynode.update([(k, v) for k, v in value.items() if k not in aynode])
 
     def construct_object(self, node, deep=False, convert=True):
         value = super().construct_object(node, deep=deep)
@@ -60,11 +65,10 @@ class AwesomeyamlLoader(yaml.Loader):
 
         aynode = self._convert(value, node)
 
-        if not deep and not self.deep_construct and value is not aynode:
-            if isinstance(node, yaml.SequenceNode):
-                self.state_generators.append(self._make_generator(value, aynode.extend))
-            elif isinstance(node, yaml.MappingNode):
-                self.state_generators.append(self._make_generator(value, aynode.update))
+        if value is not aynode and isinstance(value, (list, dict)) and isinstance(aynode, type(value)):
+            # the raw container might be filled in later (lazy construction, also when
+            # it is reached again through an alias) or be already complete (deep mode)
+            self.state_generators.append(self._make_generator(value, aynode))
 
         return aynode
 
